@@ -343,6 +343,11 @@ func (g *gen) commandStep() (omap, umap) {
 		}
 	}
 	// plugins
+	if !taken["__plugins_done"] && r.Intn(12) == 0 {
+		// an empty plugin list is omitted (and signs like an absent one)
+		in = append(in, kv{"plugins", []any{}})
+		taken["__plugins_done"] = true
+	}
 	if !taken["__plugins_done"] && r.Intn(2) == 0 {
 		n := 1 + r.Intn(3)
 		var wl []any
